@@ -16,6 +16,7 @@ GS = "FteikVerif.Proofs.GenSolver"
 L2 = "FteikVerif.Proofs.GenEquivLoops2"
 L3 = "FteikVerif.Proofs.GenEquivLoops3"
 SRCS = "FteikVerif.Props.SourceSolver"
+SRC7 = "FteikVerif.Props.SourceC07"
 SRCI = "FteikVerif.Props.SourceInterp"
 SRCV = "FteikVerif.Props.SourceVInterp"
 
@@ -37,8 +38,9 @@ KV = ["V2._vinterp2d", "V3._vinterp3d", "Common.dist2d", "Common.dist3d", "Commo
 # property -> (modules, theorems, kernels)
 TABLE = {
     # operator formulas: full equivalence with the hand model the algebraic theorems are about
-    "C01": ([S2, S3, L2, L3, RE, SRCS], SOLVER2 + SOLVER3 + ["Fteik.farLaw_real", "Fteik.Source_C01_t_ana_eq_dist",
-                                  "Fteik.Source_C01_t_ana3_eq_dist", "Fteik.Source_C01_delta_exact"], K2 + K3),
+    "C01": ([S2, S3, L2, L3, RE, SRCS, SRC7], SOLVER2 + SOLVER3 + ["Fteik.farLaw_real", "Fteik.Source_C01_t_ana_eq_dist",
+                                  "Fteik.Source_C01_t_ana3_eq_dist", "Fteik.Source_C01_delta_exact", "Fteik.gen_fteik2d_sweeps",
+                                  "Fteik.Source_C07_nsweep_monotone", "Fteik.Source_C07_nsweep_converges"], K2 + K3),
     "C02": ([S2, S3, L2, L3, RE], SOLVER2 + SOLVER3 + ["Fteik.farLaw_real"], K2 + K3),
     "C04": ([S2, L2, ST, RE], SOLVER2 + STRUCT[:2] + ["Fteik.farLaw_real"], K2),
     "C05": ([S2, S3, L2, L3, RE, SRCS], SOLVER2 + SOLVER3 + ["Fteik.farLaw_real", "Fteik.Source_C05_sweep_slowness",
